@@ -21,7 +21,7 @@ static struct {
 	int keyd[3]; uint64_t keyd_stamp[3];
 	int done, handler_runs, cancel_runs;
 	char mark, ctx1, ctx2, k0, k1, k2;
-	int expect_ctx2, susp_open;
+	int expect_ctx2, susp_open, wait_for_others, arm_rel, arm_code;
 	sim_event suspended_by_1, susp_item_done[MAXC]; int susp_item_sent[MAXC];
 	sim_event go;
 } L;
@@ -62,6 +62,7 @@ static void item(void *ctx) {
 	// using the object through the queue's own reference while running on it
 	if (L.scenario == 0) { (void)dispatch_queue_get_label(L.q); if (dispatch_get_specific(&L.k0) != (void *)&L.k0) h_viol("specific-lost", "queue-specific value disappeared while an item of the queue was running"); }
 	sim_point();
+	if (flags & 16) for (int k = 0; k < 6; k++) sim_point();   // keeps the drainer inside this item while the next one is pushed
 	if (flags & 1) { L.items_submitted++; dispatch_async_f(L.q, (void *)0, item); }   // submits a further item to the same queue
 	if (flags & 2) { dispatch_suspend(L.q); sim_point(); dispatch_resume(L.q); sim_event_signal(&L.susp_item_done[(flags >> 8) & 7]); }
 	if (flags & 4) release_obj("last item");   // a client's reference is dropped from inside the object's own item
@@ -75,8 +76,17 @@ static void *queue_client(void *arg) {
 	for (int i = 0; i < L.nitems_per; i++) {
 		intptr_t fl = 0;
 		if (L.nested && i == 0) fl |= 1;
+		if (L.last_from_item && c == 0 && i == L.nitems_per - 2) fl |= 16;
 		if (L.susp && i == 1) { fl |= 2 | ((intptr_t)c << 8); L.susp_item_sent[c] = 1; }
-		if (L.last_from_item && c == 0 && i == L.nitems_per - 1) fl |= 4;
+		if (L.last_from_item && c == 0 && i == L.nitems_per - 1) {
+			fl |= 4;
+			// the common "last item releases the queue" pattern: in half of the runs every other holder has let go
+			// already, so the reference dropped inside the item is the last one while this thread is still in dispatch_async
+			if (L.wait_for_others) for (int k = 0; k < 20000 && L.releases_called < L.nclients - 1; k++) sim_sleep_ns(5 * USEC);
+			// and this thread is descheduled somewhere inside that dispatch_async (DESIGN.md 3.17: the windows are a few
+			// instructions wide, so the stall is placed inside the operation instead of anywhere in the run)
+			if (L.arm_rel) sim_arm_stall((uint32_t)L.arm_rel, L.arm_code);
+		}
 		L.items_submitted++;
 		if ((c + i) & 1) dispatch_async_f(L.q, (void *)fl, item); else dispatch_barrier_async_f(L.q, (void *)fl, item);
 		sim_point();
@@ -132,7 +142,7 @@ static void scen_queue(void) {
 	if (L.f_obj.count != 1) h_viol("finalizer-twice", "finalizer count %d", L.f_obj.count);
 	if (L.f_obj.stamp < L.last_item_end) h_viol("finalizer-early", "the finalizer ran before the last item of the queue had finished");
 	uint64_t t0 = sim_now();
-	while ((!L.f_root.count || !L.keyd[0]) && sim_now() - t0 < LIVENESS_NS) sim_sleep_ns(100 * MSEC);
+	while ((!L.f_root.count || !L.keyd[0] || !(L.keyd[1] + L.keyd[2])) && sim_now() - t0 < LIVENESS_NS) sim_sleep_ns(100 * MSEC);
 	if (L.f_root.count != 1) h_viol("finalizer-missing", "the target queue's finalizer ran %d times after everything targeting it was gone", L.f_root.count);
 	if (L.keyd[0] != 1) h_viol("key-destructor", "the destructor of a queue-specific value ran %d times", L.keyd[0]);
 	if (L.keyd[1] + L.keyd[2] < 1 || L.keyd[1] > 1 || L.keyd[2] > 1) h_viol("key-destructor", "destructors of a replaced queue-specific value ran %d and %d times", L.keyd[1], L.keyd[2]);
@@ -164,6 +174,7 @@ static void scen_group(void) {
 	sim_event_signal(&L.go);
 	h_end_fault_phase(th, L.nclients, 5 * NSEC);
 	if (h_wait_until(quiesced, NULL, LIVENESS_NS)) h_stuck("finalizer-missing", "the group's finalizer did not run after every reference was dropped and every enter was matched");
+	{ uint64_t t0 = sim_now(); while (!L.handler_runs && sim_now() - t0 < LIVENESS_NS) sim_sleep_ns(100 * MSEC); }   // thread shortage may delay it
 	h_settle(50 * MSEC);
 	if (L.handler_runs != 1) h_viol("notify-count", "the group's notify block ran %d times", L.handler_runs);
 	if (OWNED(L.obj)) h_viol("not-freed", "the group's memory is still allocated after its finalizer ran");
@@ -201,6 +212,7 @@ static void scen_source(void) {
 	h_end_fault_phase(th, L.nclients, 5 * NSEC);
 	L.items_submitted = L.items_ended;   // handler invocations are not individually owed
 	if (h_wait_until(quiesced, NULL, LIVENESS_NS)) h_stuck("finalizer-missing", "the source's finalizer did not run after it was cancelled and every reference was dropped");
+	{ uint64_t t0 = sim_now(); while (!L.cancel_runs && sim_now() - t0 < LIVENESS_NS) sim_sleep_ns(100 * MSEC); }
 	h_settle(50 * MSEC);
 	if (L.cancel_runs != 1) h_viol("cancel-handler-count", "the cancellation handler ran %d times", L.cancel_runs);
 	if (L.f_obj.stamp < L.last_item_end) h_viol("finalizer-early", "the source's finalizer ran before its last handler invocation had finished");
@@ -214,6 +226,9 @@ static void c17_run(void) {
 	L.nclients = g_range(2, MAXC); L.nitems_per = g_range(0, 4);
 	L.susp = g_chance(1, 2); L.nested = g_chance(1, 2); L.last_from_item = g_chance(1, 3); L.set_ctx_late = g_chance(1, 4);
 	if (L.scenario != 0) { L.last_from_item = 0; L.set_ctx_late = 0; }
+	L.wait_for_others = g_chance(1, 2);
+	if (g_chance(2, 3)) { L.arm_rel = g_range(1, 70); L.arm_code = g_range(1, 4); }
+	if (L.scenario == 0 && g_chance(1, 3)) { L.last_from_item = 1; if (L.nitems_per < 2) L.nitems_per = 2; }
 	static const char *const sn[] = { "queue (context, finalizer, specific keys) targeting a queue its creator has already released", "group released while non-empty", "source released with events in flight" };
 	h_sample("%s; %d clients x %d items%s%s%s%s\n", sn[L.scenario], L.nclients, L.nitems_per, L.susp ? ", suspend/resume" : "", L.nested ? (L.scenario == 2 ? ", timer" : ", nested submission") : "",
 		L.last_from_item ? ", one reference dropped from inside the last item" : "", L.set_ctx_late ? ", context replaced before the last release" : "");
